@@ -75,6 +75,10 @@ func C01() *runner.Property {
 						q := quietFleet{Native: native, N: 2 + rep%2, Writes: 4 + r.Intn(8), Seed: r.U64(), LateAt: pt}
 						cs = append(cs, runner.MkCase("realloops-late", fmt.Sprintf("%d-native=%v-%s", rep, native, pt), q))
 					}
+					for _, pt := range []string{"send.before_txn", "send.after_txn", "send.after_store"} {
+						q := quietFleet{Native: native, N: 2, Writes: 6 + r.Intn(6), Seed: r.U64(), LateAt: pt, LateForced: true}
+						cs = append(cs, runner.MkCase("realloops-late", fmt.Sprintf("%d-native=%v-forced-%s", rep, native, pt), q))
+					}
 				}
 			}
 			return cs
